@@ -34,7 +34,7 @@ func main() {
 		c3.RunCorpus(e, r, "C02", mon)
 		c3.Lap("C02", &t0, "corpus")
 		p := profile("c02-reschedule")
-		b := c3.RunScripts(e, "C02", e.N(800, 16000), func(rng *rand.Rand) (plugin.Conf, plugin.Script, int) {
+		b := c3.RunScripts(e, "C02", e.N(2000, 16000), func(rng *rand.Rand) (plugin.Conf, plugin.Script, int) {
 			conf := c3.GenConf3(rng, p)
 			return conf, c3.NewGen3(rng, conf, p).Next, p.Len
 		}, mon, c3.MonHits)
@@ -42,13 +42,13 @@ func main() {
 		c3.Lap("C02", &t0, "profile c02-reschedule")
 		p2 := profile("c02-late-events")
 		p2.DelayPct, p2.SettlePct, p2.FilterFault, p2.Len = 80, 1, 10, 90
-		b2 := c3.RunScripts(e, "C02", e.N(400, 8000), func(rng *rand.Rand) (plugin.Conf, plugin.Script, int) {
+		b2 := c3.RunScripts(e, "C02", e.N(1000, 8000), func(rng *rand.Rand) (plugin.Conf, plugin.Script, int) {
 			conf := c3.GenConf3(rng, p2)
 			return conf, c3.NewGen3(rng, conf, p2).Next, p2.Len
 		}, mon, c3.MonHits)
 		b2.Fill(r)
 		c3.Lap("C02", &t0, "profile c02-late-events")
-		b3 := plugin.RunCorrespondence(e, "C02", e.N(300, 6000), plugin.DefaultParams(), mon)
+		b3 := plugin.RunCorrespondence(e, "C02", e.N(500, 6000), plugin.DefaultParams(), mon)
 		b3.Fill(r)
 		c3.Lap("C02", &t0, "profile plugin-default")
 		if e.Thorough() {
